@@ -175,3 +175,27 @@ def api_long(code, k, pat):
     script = [(1, build(K_NOTIF, 0, "rid-1")), (2, _err_msg(code, 1, text, 0, None, "rid-1"))]
     out = run_stub(script, lambda r, w: SM.send_message(r, w, "m", None, timeout=Ticks(100), message_id="rid-1"))
     return _judge_exc(out, code, text)
+
+
+# ------------------------------------------------------------------ content corpus: messages / data that are "active" text
+from harness.sizes import pick_text, N_TEXTS  # noqa: E402,F401
+
+
+def process_text(code, i, in_data):
+    text = pick_text(i)
+    m = _err_msg(code, 0 if in_data else 1, text, 1 if in_data else 0, text)
+    out = Outcome()
+    classify(out, lambda: SM._process_response(m))
+    r = _judge_exc(out, code, "E" if in_data else text)
+    if r != "ok":
+        return r
+    if not in_data and text != "" and out.text.count(text) < 1:
+        return "message-not-carried"
+    return "ok"
+
+
+def api_text(code, i):
+    text = pick_text(i)
+    script = [(1, build(K_NOTIF, 0, "rid-1")), (2, _err_msg(code, 1, text, 0, None, "rid-1"))]
+    out = run_stub(script, lambda r, w: SM.send_message(r, w, "m", None, timeout=Ticks(100), message_id="rid-1"))
+    return _judge_exc(out, code, text)
